@@ -356,6 +356,15 @@ Proof.
   - apply (enc_root (VMap ((k, v) :: kv2 :: m2)) default_root eq_refl default_root_ok Hr).
 Qed.
 
+(* an explicit root tag: the whole map under that tag, for both encoders *)
+Theorem encode_img_xml_tag m rt : name_okb rt = true -> dom03 o (VMap m) = true ->
+  exists its, map_xml_items o m (Some rt) = Ok its /\ map_xml_indent_items o m (Some rt) = Ok its /\
+              decodes_img its (VMap [(rt, img o (VMap m))]).
+Proof.
+  intros Hrt Hd. destruct (enc_root (VMap m) rt eq_refl Hrt Hd) as [E [HE Hdec]].
+  exists E. split; [exact HE|]. split; [exact HE | exact Hdec].
+Qed.
+
 (* ---------------- AnyXml ---------------- *)
 Lemma add_child_grouped k v na : add_child k v na = insert_grouped k v na.
 Proof.
